@@ -354,6 +354,11 @@ fn build_context(lhs: &[AstNode]) -> Result<Evaluator> {
     // evaluate context entries
     for evaluator in &evaluators {
       if let Value::ContextEntry(name, value) = evaluator(scope) {
+        if evaluated_ctx.contains_entry(&name) {
+          // the keys of a context must be distinct
+          scope.pop();
+          return value_null!("duplicated context entry key: {}", name);
+        }
         // add newly evaluated entry to evaluated context
         evaluated_ctx.set_entry(&name, (*value).clone());
         // add newly evaluated entry to special context
